@@ -512,7 +512,7 @@ func (r *tRun) setupWebsocket() {
 		got <- c
 		<-stop
 	}))
-	ctx, cancel := context.WithTimeout(context.Background(), 30*time.Second)
+	ctx, cancel := context.WithTimeout(context.Background(), 100*time.Second) // loopback, but the machine may be starved
 	defer cancel()
 	ca, _, err := websocket.Dial(ctx, "ws"+strings.TrimPrefix(srv.URL, "http"), &websocket.DialOptions{CompressionMode: mode})
 	if err != nil {
@@ -777,14 +777,17 @@ func (r *tRun) connFor(st tStep) *tEnd {
 		addr = a
 	}
 	key := inst + "|" + addr
-	deadline := time.Now().Add(10 * time.Second)
+	deadline := time.Now().Add(60 * time.Second)
 	for {
 		r.settle()
 		r.mu.Lock()
-		idx := r.cur[key]
+		var e *tEnd
+		if idx := r.cur[key]; idx != 0 {
+			e = r.conns[idx-1]
+		}
 		r.mu.Unlock()
-		if idx != 0 {
-			return r.conns[idx-1]
+		if e != nil {
+			return e
 		}
 		if r.bubble || time.Now().After(deadline) {
 			return nil
@@ -838,7 +841,7 @@ func (r *tRun) waitOps(ids []int, ms int) {
 		return
 	}
 	if ms == 0 {
-		ms = 20000
+		ms = 60000
 	}
 	deadline := time.Now().Add(time.Duration(ms) * time.Millisecond)
 	alive := time.NewTicker(time.Second)
